@@ -38,6 +38,6 @@ check = make_check('C04', _oracle, _nt)
 
 def streams(tier):
     n = 8 if tier == 'quick' else 12
-    return [Stream('both-schedulers', check, strategy=lambda: sched.any_case(max_tasks=n, min_tasks=1, taskdep=True),
+    return [Stream('both-schedulers', check, strategy=lambda: sched.any_case(max_tasks=n, min_tasks=1, taskdep=True, lookalike_ids=True),
                    examples={'quick': 6000, 'thorough': 100000}),
             Stream('large', check, strategy=lambda: sched.any_case(max_tasks=30, min_tasks=13), examples={'quick': 400, 'thorough': 6000})]
